@@ -41,6 +41,9 @@ def prepare():
     except Exception:  # pragma: no cover
         _P['dd'] = None
     _P['model'] = Model.create(name='static_model') if hasattr(Model, 'create') else Model()
+    # equal content (Model.__eq__ ignores name and description), different identity and name
+    _P['models'] = [_P['model'], Model.create(name='renamed_copy'),
+                    Model.create(name='third', description='other description')]
 
 
 # --------------------------------------------------------------------------
@@ -295,7 +298,7 @@ class World:
             if kind == 'simple':
                 out.append(STATIC_SIMPLE[t.draw(len(STATIC_SIMPLE), 'static.val')])
             elif kind == 'model':
-                out.append(_P['model'])
+                out.append(_P['models'][t.draw(len(_P['models']), 'static.model')])
             elif kind == 'list':
                 out.append([1, 'a'])
             elif kind == 'dict':
